@@ -165,7 +165,7 @@ fn no_double_drop_after(mut c: LruCache<T, T, BH>) {
     // the cache must remain a valid, usable cache: walk it, look something up, drop it
     coherent(&c);
     let probe = T::probe(3, 0);
-    let _ = c.get_from_table(&probe).is_some();
+    let _ = c.peek(&probe).is_some();
     drop(probe);
     c.clear();
     coherent(&c);
@@ -219,4 +219,46 @@ fn q_forget_borrowing() {
     }
     no_double_drop_after(c);
     all_dropped(2);
+}
+
+// ---- key/value types of which only one has a destructor (clear / drop / drain must still drop it) ----------
+fn prebuilt_mixed_v(n: u8) -> LruCache<u8, T, BH> {
+    let mut c: LruCache<u8, T, BH> = LruCache::with_capacity_and_hasher(usize::MAX / 2, 4, BH::default());
+    let mut k = 0u8;
+    while k < n {
+        let u = UnhingedEntry::new(k, T::new(4 + k));
+        c.current_size += u.size();
+        let e = Entry::new(u, c.seal, c.seal.get().next);
+        c.insert_untracked(e);
+        k += 1;
+    }
+    c
+}
+fn prebuilt_mixed_k(n: u8) -> LruCache<T, u8, BH> {
+    let mut c: LruCache<T, u8, BH> = LruCache::with_capacity_and_hasher(usize::MAX / 2, 4, BH::default());
+    let mut k = 0u8;
+    while k < n {
+        let u = UnhingedEntry::new(T::new(k), k);
+        c.current_size += u.size();
+        let e = Entry::new(u, c.seal, c.seal.get().next);
+        c.insert_untracked(e);
+        k += 1;
+    }
+    c
+}
+#[kani::proof]
+#[kani::unwind(6)]
+fn q_ledger_clear_mixed() {
+    let which: u8 = kani::any();
+    if kani::any() {
+        let mut c = prebuilt_mixed_v(2);
+        match which { 0 => c.clear(), 1 => { let _ = c.drain(); } 2 => c.retain(|_, _| false), _ => { drop(c); assert!(state(4) == 2 && state(5) == 2); return; } }
+        assert!(state(4) == 2 && state(5) == 2, "values were not dropped although keys need no destructor");
+        assert!(c.len() == 0);
+    } else {
+        let mut c = prebuilt_mixed_k(2);
+        match which { 0 => c.clear(), 1 => { let _ = c.drain(); } 2 => c.retain(|_, _| false), _ => { drop(c); assert!(state(0) == 2 && state(1) == 2); return; } }
+        assert!(state(0) == 2 && state(1) == 2, "keys were not dropped although values need no destructor");
+        assert!(c.len() == 0);
+    }
 }
